@@ -38,6 +38,8 @@ C3 = ['p;q', 'r', '', 's;t;u', 'p;q', 'r;r']
 
 LIST_ITEM = "a3.split(';')"
 MIXED_NUM = '[3, 2.5, 10, 0.75, -1][NR % 5]'      # ints and floats in one column (valid in both engines)
+DOLLAR_KEY = '["$$$", "$", "$$"][NR % 3]'      # string keys made of a character that is special in JavaScript replacement strings
+DOLLAR_LITS = ['$$$', '$', '$$']
 KEYWORD_LITERALS = ["' limit 2 '", "'top 1 distinct'", "' order by a1 desc'"]      # string literals are opaque: keywords inside them are data
 ITEMS = ['a1', 'a2', 'a3', 'NR', "'lit'", 'a1 + a2', 'NR % 2 - 2', 'NR % 3 - 2', 'a2', 'a1', LIST_ITEM, MIXED_NUM] + KEYWORD_LITERALS
 UNNEST_ITEM = "UNNEST(a3.split(';'))"
@@ -383,7 +385,7 @@ def generate(rng, tier, idx):
         sc['order'] = {'cols': cols, 'dir': rng.choice([None, 'asc', 'desc', 'DESC', 'desc', 'ASC', 'desc'])}
         if rng.random() < 0.4:
             # keys that are not (all) in the select list; ints and strings are never mixed within one key position
-            pool = ['a1', 'a2', 'a3', 'NR', 'a2 + a1', 'NR % 2', 'NR % 3', LIST_ITEM, "[NR % 2] + a3.split(';')", MIXED_NUM, MIXED_NUM]
+            pool = ['a1', 'a2', 'a3', 'NR', 'a2 + a1', 'NR % 2', 'NR % 3', LIST_ITEM, "[NR % 2] + a3.split(';')", MIXED_NUM, MIXED_NUM, DOLLAR_KEY]
             exprs = [rng.choice(pool)]
             if rng.random() < 0.4:
                 exprs.append(rng.choice(pool))
@@ -523,6 +525,15 @@ def check_engine(sc, eng, counters, res, digest_parts):
             if raw['outcome'] != ['ok']:
                 bump(counters, 'discard.raw_query_fails')
                 return 'discard'
+            if sc.get('order') and DOLLAR_KEY in (sc['order'].get('exprs') or []):
+                # a key the model can compute by itself from NR: the engine must sort by the key as written, so the key as the
+                # engine evaluates it has to be that (the order model below takes the engine's word for every other expression)
+                kr = do('select NR, ' + DOLLAR_KEY, producer, plain=True)
+                if kr['outcome'] == ['ok']:
+                    for row in kr['rows']:
+                        if row[1] != DOLLAR_LITS[row[0] % 3]:
+                            return ('order_model', {'got': row, 'outcome': kr['outcome'], 'expected': [row[0], DOLLAR_LITS[row[0] % 3]], 'raw': kr['rows'][:8],
+                                                    'note': 'the sort key expression evaluates to something else than what the query text says'})
             full = do(build_query(sc, bound=False), producer)
             try:
                 expected = model(sc, raw['rows'])
